@@ -203,6 +203,9 @@ class Prov:
         l = key[0]
         if depth > MAX_DEPTH:
             return ("unknown", "depth")
+        if l in self.mut_borrowed and l != 0:
+            # mutably borrowed somewhere: its current content is not described by its definitions
+            return ("place", l, self.names.get(l), self.local_ty.get(l))
         ds = self.reaching(key, at)
         if not ds:
             if key[1] is None and 1 <= l <= self.argc:
